@@ -3,6 +3,7 @@ import copy
 import inspect
 import math
 import os
+import json
 import pathlib
 import tempfile
 
@@ -16,6 +17,8 @@ from pygaps.core.material import Material
 from pygaps.modelling import _MODELS, get_isotherm_model
 from pygaps.parsing.json import isotherm_from_json, isotherm_to_json
 from pygaps.utilities.exceptions import CalculationError
+
+from pygaps.utilities.exceptions import pgError
 
 from pbt import case as K
 from pbt import strategies as S
@@ -418,9 +421,21 @@ def roundtrip(x, d, f, import_kwargs=None, model_queries=None):
                     _compare_frames(snap["frame"], rf.data_raw, f2)
                 if "model" in snap:
                     _compare_models(snap, x, rf, f2, *model_queries)
+            # the same path written a second time with ANOTHER isotherm: the import must see the new content
+            try:
+                dct = json.loads(doc)
+                dct["zz_second_export"] = 7
+                xb = isotherm_from_json(json.dumps(dct), **import_kwargs)
+                _export(xb, d, p_arg)
+                rb = isotherm_from_json(p_arg, **import_kwargs)
+                if rb.iso_id != xb.iso_id or not rb == xb or rb.properties.get("zz_second_export") != 7:
+                    f.add("file_rewritten", f"after a second export to the same path the import returns id {rb.iso_id} "
+                                            f"(metadata {sorted(rb.properties)}), the isotherm written last has id {xb.iso_id}")
+            except pgError:
+                pass
             # the file route must behave exactly like the string route
             if sorted({t for t, _ in f2.items}) != sorted({t for t, _ in f.items if t not in (
-                    "document_fixed_point", "export_mutates", "file_vs_string", "export_type", "column_keys")}):
+                    "document_fixed_point", "export_mutates", "file_vs_string", "export_type", "column_keys", "file_rewritten")}):
                 f.add("file_route", "the file route fails other clauses than the string route: "
                       + "; ".join(f"{t}: {m}" for t, m in f2.items)[:400])
     return r
